@@ -54,6 +54,27 @@ theorem own_security_in_order (meth : List Annot) :
   unfold securityFromContext
   simp [List.map_map, Function.comp_def]
 
+/-- the reducers compute exactly the property's `effectiveSecurity` (IR model) of the three written levels -/
+theorem reduce_is_effective (meth ctrl : List Annot) (d : Option SecComp) :
+    routeSecurity meth (controllerSecurity ctrl d) =
+      effectiveSecurity (securityFromContext meth) (securityFromContext ctrl) d := by
+  rw [effective_security]
+  unfold effectiveSecurity defaultSecurity
+  by_cases h1 : securityFromContext meth = [] <;> by_cases h2 : securityFromContext ctrl = [] <;> cases d <;> simp [h1, h2]
+
+/-- **C04 end to end (source → document / router)**: for a route reduced from ANY annotation lists, what the
+    document states (`docSecurity`, which falls back to the configured default) is what the router enforces
+    (`enforcedSecurity`) — the emitters' fallback can only fire when the reducer already applied it. -/
+theorem source_doc_eq_enforced (meth ctrl : List Annot) (cfg : Cfg) (r : Route)
+    (hr : r.security = routeSecurity meth (controllerSecurity ctrl cfg.defaultSecurity)) :
+    docSecurity cfg r = enforcedSecurity r := by
+  unfold docSecurity enforcedSecurity
+  by_cases he : r.security.isEmpty = true
+  · have hnil : r.security = [] := by simpa using he
+    have := (effective_empty_iff meth ctrl cfg.defaultSecurity).1 (hr ▸ hnil)
+    simp [he, this.2.2, hnil]
+  · simp [he]
+
 /-- non-vacuity: a default with EMPTY scopes protects an unannotated route; @Hidden with a value hides -/
 example : routeSecurity [⟨"Method", "GET", [], ""⟩] (controllerSecurity [⟨"Tag", "T", [], ""⟩] (some ⟨"sec0", []⟩)) = [[⟨"sec0", []⟩]] := by
   decide +kernel
